@@ -259,7 +259,7 @@ impl<Data: Clone> Keyframe<Data> {
 
 impl<T: Timeline> MergedTimeline<T> {
     /// Read access to the private component list for the animator harnesses (verification only).
-    pub(crate) fn timelines_ref(&self) -> &Vec<T> {
+    pub fn timelines_ref(&self) -> &Vec<T> {
         &self.timelines
     }
 }
